@@ -294,6 +294,9 @@ class Interp:
         if isinstance(v, SuperV):
             if name == 'ayns':
                 return AynsV(v.obj, None, after=v.after)
+            if all(self.repo.resolve_method(c, name, after=v.after) is None for c in self.classes_of(v.obj) if c in self.repo.classes):
+                # a method of an external base class (e.g. yaml.Loader): by its declared model
+                return BuiltinV(f'super:{v.after}.{name}', bound=v.obj)
             return self.resolve_on_obj(v.obj, name, fr, node, after=v.after)
         if isinstance(v, ModV):
             return self.eng.module_attr(self, v, name, node)
@@ -447,6 +450,10 @@ class Interp:
         if r is None:
             # unknown attribute: treat as instance field (e.g. self.builder, self.filenames)
             val = self.heap.get(name, sym.r_of(v.t))
+            fh = self.eng.field_types.get(name)
+            if fh is not None:
+                self.run.assume(z3.And(sym.is_ref(val), self.heap.cls(sym.r_of(val)) == self.eng.class_id(fh)))
+                return SV(val, hint=frozenset([fh]))
             return SV(val)
         return self.bind_member(r, v, groups[k], fr, node, name)
 
